@@ -279,7 +279,7 @@ fn run_blocks(ctx: &Ctx) -> CheckResult {
             }
         }
         let make = |bs: usize, pat: usize, bi: usize| -> (Vec<u8>, Vec<u8>) {
-            let (mut a, mut b) = (bases[bi].0.clone(), bases[bi].1.clone());
+            let (a, mut b) = (bases[bi].0.clone(), bases[bi].1.clone());
             let mut p = pat;
             for blk in 0..body.div_ceil(bs) {
                 let mode = p % 3;
